@@ -61,7 +61,7 @@ EnvOfD(c, x, D) ==
   [dev |-> D, vars |-> [n \in {"x", "e", "u", "s", "g"} |-> CASE n = "x" -> x [] n = "e" -> <<>> [] n = "u" -> <<"UNSET">>
                                                   [] n = "s" -> <<" ", "a", " ", " ", "b", " ">> [] n = "g" -> <<"a", "*">>],
    arrs |-> [n \in {"a", "z"} |-> IF n = "a" THEN <<x, <<"b", " ", "c">>>> ELSE <<>>],
-   params |-> ParamTab(x)[c[3]], ifs |-> IfsTab[c[1]], home |-> <<"/", "h">>, dir |-> DirTab[c[2]]]
+   params |-> ParamTab(x)[c[3]], ifs |-> IfsTab[c[1]], home |-> <<"/", "h", " ", "*">>, dir |-> DirTab[c[2]]]
 EnvOf(c, x) == EnvOfD(c, x, {})
 DEVS == {"LiteralSplit", "NoEmptyFields", "BraceJoin", "StarJoinSpace"}
 
